@@ -198,8 +198,15 @@ void run_case(ByteSource& s, CaseInfo& ci) {
   } else {  // interval average
     double t0 = gen_time(s), dt = fabs(gen_time(s));
     if (dt == 0) dt = 1;
+    // interval shapes taken from the tail of the byte string (added later; the forward decoding is unchanged): long baselines and
+    // narrow intervals make w*(t1-t0) small without the levels being close - the average stays well conditioned
+    unsigned tk = s.tail_choose(4), dk = s.tail_choose(4);
+    if (tk == 1) t0 = std::ldexp(1.0 + s.tail_u8() / 256.0, (int)s.tail_choose(41)) * (s.tail_choose(2) ? -1 : 1);
+    if (dk == 1) dt = std::ldexp(1.0 + s.tail_u8() / 256.0, -(int)(10 + s.tail_choose(41)));
     double t1 = t0 + dt;
+    if (dk == 2) { t1 = t0; for (unsigned u = 0, n = 1 + s.tail_choose(3); u < n; u++) t1 = ByteSource::ulp_step(t1, 1); }
     if (!(t1 > t0)) { t1 = ByteSource::ulp_step(t0, 1); }
+    ci.label(tk == 1 ? "interval-long-baseline" : "interval-baseline-O(1)"); ci.label(dk == 1 ? "interval-narrow" : dk == 2 ? "interval-few-ulps" : "interval-width-O(1)");
     ci.label("interval");
     ci.sample = fmt("PrepareEvolve(t0,t1) d=%d H=%s t0=%.17g t1=%.17g A=%s", d, vec_str(h).c_str(), t0, t1, vec_str(a).c_str());
     for (int i = 0; i < 2 * np; i++) buf[i] = 5e55;
@@ -221,11 +228,12 @@ void run_case(ByteSource& s, CaseInfo& ci) {
       ld sinc = x == 0 ? 1 : sinl(x) / x;
       cld f = cld(cosl(w[p] * tm), sinl(w[p] * tm)) * sinc;
       want.a[j][k] = MA.a[j][k] * f; want.a[k][j] = std::conj(want.a[j][k]);
-      // conditioning of the documented closed form (difference of sines over w*range) plus phase rounding
+      // the average is a well-conditioned function of (w, t0, t1): only the rounding of the phases w*t enters. (Until fix 98f828e this
+      // tolerance also carried a 1/(w*range) term that excused the cancellation of the difference quotient the library used - the check
+      // had been fitted to the implementation instead of the statement.)
       ld phase_err = 64 * EPS * hdiag * (fabsl((ld)t0) + fabsl((ld)t1));
-      ld cond = fabsl(w[p] * range) > 0 ? (16 * EPS + 2 * phase_err) / fabsl(w[p] * range) : 0;
-      ld rel = 64 * EPS + phase_err + cond + 64 * EPS * hdiag / std::max<ld>(fabsl(w[p]), 1e-300L);
-      tolm.a[j][k] = cld(std::min<ld>(rel, 4.0L), 0);
+      ld rel = 64 * EPS + phase_err;
+      tolm.a[j][k] = cld(std::min<ld>(rel, 2.0L), 0);
     }
     Mat MR = toM(R);
     for (int p = 0; p < np; p++) {
@@ -251,5 +259,17 @@ void regressions() {
     std::vector<double> buf(2 * np, 5e55);
     H.PrepareEvolve(buf.data(), -8.0, 0.0);
     for (int p = 0; p < np; p++) CHECK(buf[p] == 1.0 && buf[np + p] == 0.0, fmt("C11|interval|nonfinite-table|d=%d", d), "regression: slot %d = (%g,%g) for fully degenerate H", p, buf[p], buf[np + p]);
+  }
+  // 98f828e: cancellation in the interval averages. d=2, level splitting w (H[3] = w/2): the table holds <cos(w t)>, <sin(w t)> over [t0,t1]
+  struct { double w, t0, t1; } cases[] = {{1.0, 1.0, 1.0 + 1e-12}, {1e-12, 1e12, 1e12 + 1.0}, {1.0, 1.0, std::nextafter(std::nextafter(1.0, 2.0), 2.0)}, {0.03125, -8.0, -8.0 + 7.62939453125e-06}};
+  for (auto& c : cases) {
+    SU_vector H(2); H[3] = c.w / 2;
+    double buf[2] = {5e55, 5e55};
+    H.PrepareEvolve(buf, c.t0, c.t1);
+    ld wl = 2 * (ld)H[3], tm = ((ld)c.t0 + (ld)c.t1) / 2, y = wl * ((ld)c.t1 - (ld)c.t0) / 2, sinc = y == 0 ? 1 : sinl(y) / y;
+    ld wc = cosl(wl * tm) * sinc, ws = sinl(wl * tm) * sinc;
+    ld tol = 64 * EPS * (1 + fabsl(wl) * (fabsl((ld)c.t0) + fabsl((ld)c.t1)));
+    CHECK(fabsl(fabsl((ld)buf[0]) - fabsl(wc)) <= tol && fabsl(fabsl((ld)buf[1]) - fabsl(ws)) <= tol, "C11|interval|not-time-average|d=2",
+          "regression: w=%g [%.17g,%.17g]: table (%.17g,%.17g), exact averages (%.17Lg,%.17Lg)", c.w, c.t0, c.t1, buf[0], buf[1], wc, ws);
   }
 }
